@@ -29,6 +29,8 @@ def configs(t):
         cfg(3, 3, 0, F=1, faults=['crash'], so='STRICT', strategy='RESYNC', warm=6, cost=4),
         cfg(3, 3, 0, F=1, faults=['crash'], so='STRICT', strategy='SHUTDOWN', warm=6, cost=4),
         cfg(3, 4, 0, late=[2], warm=6, cost=4),
+        # a late joiner is held CHECKED while the distribution lasts (slow start) and is lost in that state
+        cfg(3, 5, 0, late=[2], rules=True, slow_start=True, F=1, faults=['crash'], crashable=[2], warm=4, cost=7),
     ]
     if t == 'quick':
         return q
